@@ -695,7 +695,7 @@ def gen_known_history_cases():
     return out
 
 
-MUTATING = ("ADD ", "ADDSPEC ", "MADDSPEC ", "ALTERSPEC ", "ALIAS ", "HIDE ", "UNHIDE ", "FRAGATTR ", "INC ", "RENAME ", "MOVE ", "DELETE ",
+MUTATING = ("UNINCLUDEN ", "INCN ", "ADD ", "ADDSPEC ", "MADDSPEC ", "ALTERSPEC ", "ALIAS ", "HIDE ", "UNHIDE ", "FRAGATTR ", "INC ", "RENAME ", "MOVE ", "DELETE ",
             "ALTERAFFIX ", "NSALTER ", "PUTS ", "PUTC ", "REF ", "UNINCLUDE ")
 STALE_OPS = ("HIDE ", "UNHIDE ", "FRAGATTR ", "ALTERAFFIX ", "NSALTER ")
 
@@ -757,6 +757,71 @@ def history_key(c, ops, need):
     if prev and prev[-1].startswith(STALE_OPS):
         return KSTALE
     return KORACLE
+
+
+def gen_include_tree_cases(rng, n_random):
+    """trees of 3-4 included fragments (every shape), a field in each, everything flushed; then one or two gd_uninclude
+    calls (every ordered pair, with and without a flush in between), sometimes a re-include; flush, reopen, compare the
+    fragment list and every entry"""
+    out = []
+    cnt = [0]
+    names = [b"fa", b"fb", b"fc", b"fd"]
+
+    def build(parents, affix):
+        cmds = ["OPEN 0", "ADD CONST 0 - %s 001 1 0" % hx(b"root")]
+        pxs = {}
+        for i, par in enumerate(parents):
+            px = (names[i][1:] + b"_") if (affix and i % 2 == 0) else None
+            full = (pxs.get(par - 1, b"") if par > 0 else b"") + (px or b"")
+            pxs[i] = full
+            cmds.append("INC %d %s - %s -" % (par, hx(names[i]), hx(px)))
+            cmds.append("ADD CONST %d - %s 001 %d 0" % (i + 1, hx(full + b"k" + names[i]), i + 2))
+            cmds.append("ADD RAW %d - %s 088 1" % (i + 1, hx(full + b"r" + names[i])))
+        return cmds
+
+    def mk(cmds):
+        c = Case("t%d" % cnt[0])
+        cnt[0] += 1
+        c.pretty = False
+        c.pure = False
+        c.phase2 = True
+        c.cmds += cmds
+        out.append(c)
+
+    def shapes(n):
+        if n == 0:
+            yield []
+            return
+        for sh in shapes(n - 1):
+            for par in range(0, n):
+                yield sh + [par]
+    for sh in shapes(3):
+        for affix in (False, True):
+            base = build(sh, affix)
+            for a in range(3):
+                mk(base + ["MFLUSH", "UNINCLUDEN %s" % hx(names[a])])
+                for b in range(3):
+                    if a != b:
+                        for mid in ([], ["MFLUSH"]):
+                            mk(base + ["MFLUSH", "UNINCLUDEN %s" % hx(names[a])] + mid + ["UNINCLUDEN %s" % hx(names[b])])
+    all4 = list(shapes(4))
+    for _ in range(n_random):
+        sh = rng.choice(all4)
+        cmds = build(sh, rng.random() < 0.4) + ["MFLUSH"]
+        alive = list(range(4))
+        for _k in range(rng.randint(1, 3)):
+            r_ = rng.random()
+            if r_ < 0.7:
+                a = rng.choice(range(4))
+                cmds.append("UNINCLUDEN %s" % hx(names[a]))
+            elif r_ < 0.85:
+                cmds.append("INCN %s %s - -" % (hx(rng.choice([b"format"] + names)), hx(b"n%d" % _k)))
+            else:
+                cmds.append("ADD CONST 0 - %s 001 9 0" % hx(b"late%d" % _k))
+            if rng.random() < 0.5:
+                cmds.append("MFLUSH")
+        mk(cmds)
+    return out
 
 
 def gen_version_cases():
@@ -866,6 +931,44 @@ def parse_out(out):
             else:
                 snap["lines"].append(l)
     return cases
+
+
+def renumber_snapshot(a_lines, b_lines):
+    """fragment indices are not stable across a reopen once fragments have been un-included (the table is compacted in
+    memory, the reopened database numbers them in file order): rewrite b_lines to the numbering of a_lines, matching the
+    fragments by file name.  Returns the rewritten lines, or None when the sets of fragment names differ"""
+    def names(lines):
+        m = {}
+        for l in lines:
+            if l.startswith("G "):
+                t = l.split()
+                m[int(t[1])] = kv(t[2:]).get("name")
+        return m
+    na, nb = names(a_lines), names(b_lines)
+    if sorted(na.values()) != sorted(nb.values()) or len(set(na.values())) != len(na):
+        return None
+    inv = {v: k for k, v in na.items()}
+    mp = {i: inv[n_] for i, n_ in nb.items()}
+    if all(k == v for k, v in mp.items()):
+        return b_lines
+    out, gl = [], []
+    for l in b_lines:
+        if l.startswith("G "):
+            t = l.split()
+            t[1] = str(mp[int(t[1])])
+            t = [("parent=%d" % (mp[int(x[7:])] if int(x[7:]) >= 0 else -1)) if x.startswith("parent=") else x for x in t]
+            gl.append((int(t[1]), " ".join(t)))
+        else:
+            l2 = re.sub(r" frag=(\d+)", lambda m_: " frag=%d" % mp.get(int(m_.group(1)), int(m_.group(1))), l)
+            out.append(l2)
+    gl.sort()
+    res_, placed = [], False
+    for l in out:
+        if l.startswith("R ") and not placed:
+            res_ += [g_ for _, g_ in gl]
+            placed = True
+        res_.append(l)
+    return res_
 
 
 def kv(tokens):
@@ -1134,6 +1237,7 @@ def main():
     cases += vcases
     cases += gen_history_cases()
     cases += gen_known_history_cases()
+    cases += gen_include_tree_cases(rng, 60 if not chk.thorough else 1500)
     for i in range(120 if not chk.thorough else 1500):
         cases.append(gen_xfrag_case(g, "x%d" % i))
     # known-finding witnesses (replayed on every run)
@@ -1462,7 +1566,13 @@ def main():
                                       "plain" if tag == "B" else "GD_PEDANTIC", c.std, S["errstr"][:200]), dict(replay, reopen=tag, error=S["errstr"]))
                 continue
             la = [l for l in A["lines"]]
-            lb = [l for l in S["lines"]]
+            lb = renumber_snapshot(la, [l for l in S["lines"]])
+            if lb is None:
+                viol("reopen/fragment-list", "the reopened database has a different set of fragments (%s): before %s | after %s (case %s)" % (
+                    tag, [unhx(kv(l.split()[2:])["name"]) for l in la if l.startswith("G ")],
+                    [unhx(kv(l.split()[2:])["name"]) for l in S["lines"] if l.startswith("G ")], c.cid), dict(replay, reopen=tag))
+                continue
+            S["lines"] = lb
             # normalisations allowed by the assumptions
             def norm(l):
                 return l
